@@ -7,9 +7,12 @@ import e2e_streams as ES
 
 MODULE = "Props.C01"
 THEOREMS = ["C01_leaf_suppressed", "C01_floor_generic", "C01_floor_unique", "C01_safe_values_backed", "C01_verbatim_only_safe",
-            "C02_floor", "C02_saturating_counter_floor", "C02_cap_bounds", "C18_split_conditions"]
-PARTIAL = ["provenance of refined buckets (ranges come from already harvested lower-dimensional buckets or the refined node) and the lift "
-           "to whole harvests is not yet a Lean theorem; the oracle checks every released range of every real bucket and every verbatim "
+            "C02_floor", "C02_saturating_counter_floor", "C02_cap_bounds", "C18_split_conditions",
+            "C01_leaf_backed_generic", "C01_leaf_backed_unique", "C01_leaf_values_inside", "C18_tree_invariant", "C18_branch_entities_generic"]
+PARTIAL = ["leaf buckets: proved globally (any leaf of any tree `add_row` builds that passes the filter holds >= low_threshold distinct entities whose own "
+           "values lie in the released range: C01_leaf_backed_*, C01_leaf_values_inside on top of the tree invariant C18_tree_invariant); "
+           "provenance of *refined* buckets (ranges come from already harvested lower-dimensional buckets or the refined node) through the harvest "
+           "recursion is not yet a Lean theorem; the oracle checks every released range of every real bucket and every verbatim "
            "string of every real synthetic table against the distinct entities whose own values fall inside it"]
 ASSUMPTIONS = []
 TRUSTED = ["generators of tree_streams/e2e_streams (rare strings, one entity owning many rows, several id columns, null ids, thresholds in unusual order)"]
